@@ -30,8 +30,11 @@ OBSERVER = {'C17': 'Trace_Recent', 'C04': 'Trace_Uids'}
 ASIS_DEVS = []
 
 
+UID_BASE = [100]        # first UID - 1 of the backend in use (dict: 100, maildir: 0)
+
+
 def rand_set(rng, uidmode: bool, nmax: int = 5) -> str:
-    base = 100 if uidmode else 0
+    base = UID_BASE[0] if uidmode else 0
     r = rng.random()
     if r < 0.45:
         return str(base + rng.randint(1, nmax))
@@ -99,7 +102,7 @@ def random_schedule(rng, nsess: int, ncmds: int, idle: bool = False,
                     weights=None, ro_prob: float = 0.15, idle_prob: float = 0.25,
                     gate_idlers: bool = False, recent_flags: bool = False, micro: float = 0.0,
                     fetch_after_select: bool = False, initial_select: float = 1.0,
-                    two_boxes: bool = False) -> tuple[list, list]:
+                    two_boxes: bool = False, uid_base: int = 100) -> tuple[list, list]:
     """A schedule in driver actions, decided step by step against the REAL run
     (the enabled actions depend on where the sessions are parked), so this
     returns a generator-like closure result: (sessions, driver)"""
@@ -107,6 +110,7 @@ def random_schedule(rng, nsess: int, ncmds: int, idle: bool = False,
 
     def drive(run: SyncRun):
         log = []
+        UID_BASE[0] = uid_base
         need_fetch = set()
         for s in sessions:
             if rng.random() >= initial_select:
